@@ -270,6 +270,7 @@ def from_shapes():
         ("right_nested_join", lambda n: ((ir.FromGroup(A, (ir.Join("JOIN", ir.Nested(ir.FromGroup(B, (ir.Join("LEFT JOIN", C, on("tb", "s1.tc")),))), on("ta", "tb")),)),), "ta", ())),
         ("right_nested_join_derived", lambda n: ((ir.FromGroup(A, (ir.Join("LEFT JOIN", ir.Nested(ir.FromGroup(ir.T(None, "tb", "y", True), (ir.Join("JOIN", ir.Derived(_sub(8), "d2", True), on("y", "d2")),
                                                                                                                       ir.Join("JOIN", C, on("y", "s1.tc"))))), on("ta", "y")),)),), "ta", ())),
+        ("nested_join_only", lambda n: ((ir.FromGroup(ir.Nested(ir.FromGroup(ir.T(None, "ta", "x", False), (ir.Join("JOIN", ir.T(None, "tb", "y", False), on("x", "y")),)))),), "x", ())),
         ("nested_join_first", lambda n: ((ir.FromGroup(ir.Nested(ir.FromGroup(A, (ir.Join("JOIN", B, on("ta", "tb")),))), (ir.Join("JOIN", C, on("ta", "s1.tc")),)),), "ta", ())),
         ("recursive_cte", lambda n: ((ir.FromGroup(ir.CteRef("q1")),), "q1", ("RECURSIVE", ("q1", ir.SetOp(("UNION ALL",), (
             ir.Select((ir.Item(ir.Col(None, "c1")),), (ir.FromGroup(ir.T(None, "sq9")),)),
@@ -308,6 +309,8 @@ def subquery_positions():
         ("where_exists", lambda q, n: {"where": ir.Exists(S(1, n))}),
         ("where_not_exists", lambda q, n: {"where": ir.Not(ir.Exists(S(1, n)))}),
         ("where_cmp", lambda q, n: {"where": ir.CmpSub(c(q), "=", S(1, n))}),
+        ("where_cmp_subqueries_both_sides", lambda q, n: {"where": ir.CmpSub(ir.ScalarSub(S(1, n)), ">", S(2, n))}),
+        ("where_and_two_comparisons", lambda q, n: {"where": ir.BoolOp("AND", ir.CmpSub(c(q), "<", S(1, n)), ir.CmpSub(ir.ScalarSub(S(2, n)), "=", S(3, n)))}),
         ("where_and", lambda q, n: {"where": ir.BoolOp("AND", ir.Cmp(c(q), ">", ir.Lit("0")), ir.InSub(c(q), S(1, n)))}),
         ("where_or", lambda q, n: {"where": ir.BoolOp("OR", ir.InSub(c(q), S(1, n)), ir.Cmp(c(q), ">", ir.Lit("0")))}),
         ("where_paren", lambda q, n: {"where": ir.PParen(ir.BoolOp("AND", ir.InSub(c(q), S(1, n)), ir.Cmp(c(q), ">", ir.Lit("0"))))}),
